@@ -197,7 +197,7 @@ def check(repo: Repo, rep: Report) -> None:
     rep.rule("L4-snapshot", "CompositeDisposable.dispose/clear dispose a snapshot swapped out under the lock", floor=3)
     rep.rule("L5-single-assignment", "SingleAssignmentDisposable rejects a second assignment, deciding under the lock", floor=2)
     rep.rule("L6-item-identity", "held items are tested with `is (not) None`, never by truthiness (a disposable may be falsy: "
-                                 "an empty CompositeDisposable has __len__ == 0)", floor=6)
+                                 "an empty CompositeDisposable has __len__ == 0)", floor=3)
     cls = {}
     for name, (rel, fields) in FILES.items():
         c = repo.fn(rel, name)
